@@ -1,4 +1,4 @@
-import CaresModel.Chan.Core
+import CaresLemmas.ChanSockBase
 /-!
 # Framing lemmas for the channel model (C20)
 
@@ -508,5 +508,112 @@ theorem advQ_all (out : List OutFrame) (off : Nat) (h : OutOk out off) :
   have hz : (advQ out off (framesLen out - off)).2.2 = 0 := hb.2.2.2 hnil
   rw [hnil, List.append_nil] at happ
   exact Prod.ext happ (Prod.ext hnil hz)
+
+/-! ## `advanceOut` refines `advQ` -/
+
+theorem find?_map_self (fd : Nat) (f : Conn → Conn) : ∀ (l : List Conn) (c : Conn),
+    l.find? (·.fd == fd) = some c → (f c).fd = c.fd →
+    (l.map fun x => if x.fd == fd then f x else x).find? (·.fd == fd) = some (f c)
+  | [], _, hc, _ => by simp at hc
+  | x :: rest, c, hc, hf => by
+    simp only [List.find?_cons] at hc
+    simp only [List.map_cons, List.find?_cons]
+    by_cases hx : (x.fd == fd) = true
+    · simp only [hx] at hc
+      cases hc
+      have : ((f x).fd == fd) = true := by rw [hf]; exact hx
+      simp only [hx, ↓reduceIte, this]
+    · simp only [Bool.not_eq_true] at hx
+      simp only [hx] at hc
+      simp only [hx, Bool.false_eq_true, ↓reduceIte]
+      exact find?_map_self fd f rest c hc hf
+
+theorem conn?_modConn_self {s : St} {fd : Nat} {c : Conn} (f : Conn → Conn) (hc : s.conn? fd = some c)
+    (hf : (f c).fd = c.fd) : (s.modConn fd f).conn? fd = some (f c) :=
+  find?_map_self fd f s.conns c hc hf
+
+theorem conn?_recordTx (s : St) (fd' fd : Nat) (tcp : Bool) (f : OutFrame) :
+    (s.recordTx fd' tcp f).conn? fd = s.conn? fd := rfl
+
+/-- what the virtual server records of a transmission: `(fd, tcp, query key, id, length without prefix)` -/
+def Tx.view (t : Tx) : Nat × Bool × Nat × Nat × Nat := (t.fd, t.tcp, t.key, t.id, t.len)
+def OutFrame.view (fd : Nat) (f : OutFrame) : Nat × Bool × Nat × Nat × Nat := (fd, true, f.key, f.qid, f.len - 2)
+
+theorem txs_recordTx (s : St) (fd : Nat) (tcp : Bool) (f : OutFrame) :
+    (s.recordTx fd tcp f).txs.map Tx.view = s.txs.map Tx.view ++ [(fd, tcp, f.key, f.qid, f.len - 2)] := by
+  simp [St.recordTx, St.slog, St.modQuery, St.emit, Tx.view]
+
+/-- **`advanceOut` is `advQ`**: on the connection's out queue and offset, and on the transmissions the virtual
+    server records (one per completed frame, in queue order) -/
+theorem advanceOut_spec : ∀ (fuel fd : Nat) (s : St) (n : Nat) (c : Conn),
+    s.conn? fd = some c → c.out.length < fuel →
+    (advanceOut fuel fd s n).conn? fd =
+        some { c with out := (advQ c.out c.outOff n).2.1, outOff := (advQ c.out c.outOff n).2.2 } ∧
+      (advanceOut fuel fd s n).txs.map Tx.view =
+        s.txs.map Tx.view ++ (advQ c.out c.outOff n).1.map (OutFrame.view fd)
+  | 0, _, _, _, _, _, hf => by simp at hf
+  | fuel + 1, fd, s, n, c, hc, hf => by
+    unfold advanceOut
+    simp only [hc]
+    cases hout : c.out with
+    | nil =>
+      simp only [advQ, List.map_nil, List.append_nil, hc, and_true]
+      congr 1
+      cases c; simp_all
+    | cons f rest =>
+      simp only [advQ]
+      by_cases hge : n ≥ f.len - c.outOff
+      · simp only [hge, ↓reduceIte]
+        have hc1 : ((s.modConn fd fun c => { c with out := rest, outOff := 0 }).recordTx fd true f).conn? fd =
+            some { c with out := rest, outOff := 0 } := by
+          rw [conn?_recordTx]; exact conn?_modConn_self _ hc rfl
+        by_cases hz : n - (f.len - c.outOff) = 0
+        · simp only [hz, beq_self_eq_true, ↓reduceIte, hc1, List.map_cons, List.map_nil, true_and]
+          rw [txs_recordTx]; rfl
+        · have hz' : (n - (f.len - c.outOff) == 0) = false := by simpa using hz
+          simp only [hz', Bool.false_eq_true, hz, ↓reduceIte]
+          have hlen : rest.length < fuel := by rw [hout] at hf; simp only [List.length_cons] at hf; omega
+          have ih := advanceOut_spec fuel fd _ (n - (f.len - c.outOff)) _ hc1 hlen
+          simp only at ih
+          refine ⟨ih.1, ?_⟩
+          rw [ih.2, txs_recordTx]
+          simp [OutFrame.view, St.modConn]
+      · simp only [hge, ↓reduceIte, List.map_nil, List.append_nil]
+        refine ⟨?_, rfl⟩
+        rw [conn?_modConn_self _ hc rfl, hout]
+
+/-- a whole acceptance pattern applied to connection `fd` (fuel as in `ares_conn_flush`'s model: queue length + 1) -/
+def advanceSeq (fd : Nat) : St → List Nat → St
+  | s, [] => s
+  | s, n :: ns => advanceSeq fd (advanceOut (((s.conn? fd).map (·.out.length)).getD 0 + 1) fd s n) ns
+
+theorem advanceSeq_spec (fd : Nat) : ∀ (ns : List Nat) (s : St) (c : Conn), s.conn? fd = some c →
+    (advanceSeq fd s ns).conn? fd =
+        some { c with out := (advSeq c.out c.outOff ns).2.1, outOff := (advSeq c.out c.outOff ns).2.2 } ∧
+      (advanceSeq fd s ns).txs.map Tx.view =
+        s.txs.map Tx.view ++ (advSeq c.out c.outOff ns).1.map (OutFrame.view fd)
+  | [], s, c, hc => by simp [advanceSeq, advSeq, hc]
+  | n :: ns, s, c, hc => by
+    have h1 := advanceOut_spec (c.out.length + 1) fd s n c hc (by omega)
+    have ih := advanceSeq_spec fd ns _ _ h1.1
+    simp only [advanceSeq, hc, Option.map_some, Option.getD_some, advSeq]
+    simp only at ih
+    refine ⟨ih.1, ?_⟩
+    rw [ih.2, h1.2]
+    simp
+
+/-- **Write-side segmentation invariance (model level).**  Whatever pattern `ns` of partial acceptances the socket
+    shows (as long as it does not accept more than is queued), the whole messages the virtual server has received
+    afterwards are exactly the queued frames whose last byte lies within the `ns.sum` accepted bytes — in queue order,
+    each once — and the connection's queue is what accepting `ns.sum` bytes at once leaves. -/
+theorem advanceSeq_invariant (fd : Nat) (ns : List Nat) (s : St) (c : Conn) (hc : s.conn? fd = some c)
+    (hok : OutOk c.out c.outOff) (hle : c.outOff + ns.sum ≤ framesLen c.out) :
+    (advanceSeq fd s ns).conn? fd =
+        some { c with out := (advQ c.out c.outOff ns.sum).2.1, outOff := (advQ c.out c.outOff ns.sum).2.2 } ∧
+      (advanceSeq fd s ns).txs.map Tx.view =
+        s.txs.map Tx.view ++ (advQ c.out c.outOff ns.sum).1.map (OutFrame.view fd) := by
+  have h := advanceSeq_spec fd ns s c hc
+  rw [advSeq_eq_advQ ns c.out c.outOff hok hle] at h
+  exact h
 
 end Cares.Chan
